@@ -10,6 +10,7 @@ import math, contextlib
 import numpy as np
 from fractions import Fraction
 from harness.core import import_cuqi, quiet, q, qv, qm, pq, pv, pm, close, vclose, mclose
+from harness.props import c17_ext as _ext0
 
 LOG2PI = math.log(2 * math.pi)
 
@@ -712,7 +713,8 @@ def psf1_leaf(T, dim, psf):
         return P
     if name.lower() != "defocus":
         raise KeyError(name)
-    T._DefocusPSF_1D(n, param)                                   # (raises for PSF_param = 0: known finding)
+    if param is not None and param == 0:                         # the delta branch raises in the pinned code (known finding); no private helper is called here
+        raise ZeroDivisionError("Defocus PSF_param = 0")
     return doc_defocus(n, param, 1, n // 2 - 1)                  # documented disc at the centre the code uses
 
 
@@ -829,7 +831,7 @@ def case_deconv1d(ctx, cuqi, T, B1, B2, cfg, sid):
         n_ = psf[3] if psf[3] is not None else dim
         with quiet():
             try:
-                Pimpl = np.asarray(T._DefocusPSF_1D(n_, psf[2])[0], dtype=float)
+                Pimpl = np.asarray(getattr(T, "_DefocusPSF_1D")(n_, psf[2])[0], dtype=float)
             except Exception:
                 Pimpl = None
         if Pimpl is not None:
@@ -1105,7 +1107,13 @@ def case_deconv2d(ctx, cuqi, T, B1, B2, cfg, sid):
             f = {"gauss": lambda s, p: T._GaussPSF(np.array([s, s]), p), "moffat": lambda s, p: T._MoffatPSF(np.array([s, s]), p, 1),
                  "defocus": lambda s, p: T._DefocusPSF(np.array([s, s]), p)}[psf[1].lower()]
             try:
-                Pimpl = np.asarray(f(psf[3], psf[2])[0], dtype=float)
+                # the PSF the problem uses: the public Miscellaneous['PSF'] of the constructed problem; the private builder only as a fallback
+                if tp is not None and isinstance(getattr(tp, "Miscellaneous", None), dict) and isinstance(tp.Miscellaneous.get("PSF"), np.ndarray):
+                    Pimpl = np.asarray(tp.Miscellaneous["PSF"], dtype=float)
+                elif tp is None and err is not None and psf[1].lower() == "defocus" and psf[2] == 0:
+                    raise RuntimeError(err)
+                else:
+                    Pimpl = np.asarray(f(psf[3], psf[2])[0], dtype=float)
                 P = doc_psf(psf[1], psf[3], psf[2], 2)
                 if P is None:                      # Defocus: documented closed disc at the centre the code uses
                     P = doc_defocus(psf[3], psf[2], 2, psf[3] // 2 - 1)
@@ -1411,6 +1419,7 @@ def case_poisson(ctx, cuqi, B1, B2, cfg, sid):
             kp_impl = A1(tp.model.domain_geometry.par2fun(p))
             ctx.extra_cov.setdefault("pde_field_kinds", {}).setdefault("Poisson1D:" + field[0], 0)
             ctx.extra_cov["pde_field_kinds"]["Poisson1D:" + field[0]] += 1
+            _ext0._mrg(ctx, "field-par2fun(1e-10)", kp_impl, kp, 1e-10)
             if kp_impl.shape != kp.shape or not vclose(kp_impl, kp, 1e-10):
                 ctx.fail("Poisson1D:field:par2fun", {**desc, "p": [float(v) for v in p[:6]]}, list(kp[:6]), list(kp_impl[:6]),
                          "the domain geometry of the model is not the stated field expansion followed by the stated map")
@@ -1540,6 +1549,7 @@ def case_heat(ctx, cuqi, B1, B2, cfg, sid):
             up_impl = A1(tp.model.domain_geometry.par2fun(p))
             ctx.extra_cov.setdefault("pde_field_kinds", {}).setdefault("Heat1D:" + field[0], 0)
             ctx.extra_cov["pde_field_kinds"]["Heat1D:" + field[0]] += 1
+            _ext0._mrg(ctx, "field-par2fun(1e-10)", up_impl, up, 1e-10)
             if up_impl.shape != up.shape or not vclose(up_impl, up, 1e-10):
                 ctx.fail("Heat1D:field:par2fun", {**desc, "p": [float(v) for v in p[:6]]}, list(up[:6]), list(up_impl[:6]),
                          "the domain geometry of the model is not the stated field expansion followed by the stated map")
@@ -1657,6 +1667,7 @@ def case_abel(ctx, cuqi, B1, B2, cfg, sid):
                 fp_impl = A1(tp.model.domain_geometry.par2fun(p))
                 ctx.extra_cov.setdefault("pde_field_kinds", {}).setdefault("Abel1D:" + field[0], 0)
                 ctx.extra_cov["pde_field_kinds"]["Abel1D:" + field[0]] += 1
+                _ext0._mrg(ctx, "field-par2fun(1e-10)", fp_impl, fp, 1e-10)
                 if fp_impl.shape != fp.shape or not vclose(fp_impl, fp, 1e-10):
                     ctx.fail("Abel1D:field:par2fun", {**desc, "p": [float(v) for v in p[:6]]}, list(fp[:6]), list(fp_impl[:6]),
                              "the domain geometry of the model is not the stated field expansion followed by the stated map")
@@ -2173,6 +2184,7 @@ def run(ctx):
     _ext.grid_stream(ctx, cuqi, B2)
     _ext.setter_histories(ctx, cuqi, B2)
     _ext.option_stream(ctx, cuqi, B2, STATED["phantoms"])
+    _ext.option2d_stream(ctx, cuqi, B2)
 
     B1.run(ctx)
     B2.run(ctx)
